@@ -461,10 +461,26 @@ def run_case(cd: CaseDef, params, case_id):
                         st, md, backend = "unsat", None, "sympy"
                     else:
                         ob.info["cas_detail"] = why
+                        if st == "unknown":
+                            # the two sides differ numerically at several sampled valuations: a counter-model candidate (confirmed by the replay or dropped as spurious)
+                            w = cas.refute_identity(lhs, rhs, asm)
+                            if w is not None:
+                                st, md, backend = "sat", {"cas_numeric_witness": w}, "sympy-numeric"
                 if st == "unknown" and time.time() - t0 < cd.timeout * 0.7 and ob.info.get("_lean") is None:
                     # second attempt with a 4x budget (verdicts must not flip to undecided on a busy machine)
                     st, md, dt2, backend = solve_vc(ob.pc, ob.formula, cd.solver_timeout * 4, symbols)
                     dt += dt2
+                if st == "unknown" and ob.info.get("_cas") is not None:
+                    # an identity neither the CAS nor the SMT back ends could close: if the two sides differ numerically at several sampled valuations this is a
+                    # counter-model candidate (confirmed by the replay on the real code, or dropped as spurious)
+                    from . import cas
+                    lhs, rhs, asm = ob.info["_cas"]
+                    try:
+                        w = cas.refute_identity(lhs, rhs, asm)
+                    except Exception:
+                        w = None
+                    if w is not None:
+                        st, md, backend = "sat", {"cas_numeric_witness": w}, "sympy-numeric"
                 secs += dt
                 be.add(backend)
                 if smt_sample is None:
